@@ -283,6 +283,66 @@ void systematic(std::basic_string<Ch> const &t, std::string const &e, vf::rng *g
 
 // bytes: false = the alphabet the property names; true = characters whose value is special somewhere else (NUL, the
 // top bit, 0xFF - the byte whose char value equals traits::to_char_type(eof()) - and for wchar_t U+00FF / U+FFFF)
+// The underlying std::istream is shared with the caller, who may have looked at it between two operations of the parse
+// stream: (a) a peek / getline / ws at the end leaves eofbit WITHOUT failbit - the input is healthy and exhausted, and
+// get_position still reports the offset; (b) a stream that is failed (failbit without eofbit) stays failed: after a
+// get_position (which may report the failure by the internal exception) get_char yields nothing.
+template <class Ch>
+void external_state(std::basic_string<Ch> const &t, std::string const &e)
+{
+  for (std::size_t k = 0; k <= t.size(); ++k)
+    for (int scenario = 0; scenario < 2; ++scenario)
+    {
+      if (scenario == 0 && k != t.size())
+        continue;
+      std::basic_istringstream<Ch> iss(t);
+      fcppt::parse::detail::stream<Ch> st{fcppt::reference_to_base<std::basic_istream<Ch>>(fcppt::make_ref(iss))};
+      checker<Ch> c(t, st, e + (scenario == 0 ? "/eofbit-only" : "/failbit-only"));
+      std::size_t i = 0;
+      while (i < k && c.ok)
+        i = c.read(i, "prefix");
+      if (!c.ok)
+        return;
+      if (scenario == 0)
+      {
+        (void)iss.peek(); // sets eofbit, not failbit
+        if (!iss.eof() || iss.fail())
+          continue;
+        try
+        {
+          c.check_position(t.size(), "after-external-peek-at-end");
+        }
+        catch (fcppt::parse::detail::exception<Ch> const &)
+        {
+          vf::violation(e + "/eofbit-only/position-not-reported", "mismatch", "get_position failed on a healthy, exhausted stream (eofbit without failbit) text=\"" + narrow_show(t) + "\"");
+        }
+        VF_COUNT("stream/external/eofbit-only");
+      }
+      else
+      {
+        iss.setstate(std::ios_base::failbit);
+        try
+        {
+          (void)st.get_position();
+        }
+        catch (fcppt::parse::detail::exception<Ch> const &)
+        {
+        }
+        bool yielded = false;
+        try
+        {
+          yielded = st.get_char().has_value();
+        }
+        catch (fcppt::parse::detail::exception<Ch> const &)
+        {
+        }
+        if (yielded)
+          vf::violation(e + "/failbit-only/character-from-failed-stream", "mismatch", "a stream with failbit set yielded a character after get_position text=\"" + narrow_show(t) + "\" k=" + std::to_string(k));
+        VF_COUNT("stream/external/failbit-only");
+      }
+    }
+}
+
 template <class Ch>
 void exhaustive(unsigned maxlen, bool bytes = false)
 {
@@ -314,6 +374,8 @@ void exhaustive(unsigned maxlen, bool bytes = false)
         vf::sample_case(2);
       vf::note_distinct(vf::hash_mix(vf::hash_str(e), vf::hash_bytes(t.data(), t.size() * sizeof(Ch))));
       systematic<Ch>(t, std::string("stream<") + cn<Ch>() + ">", nullptr, 0);
+      if (len <= 4)
+        external_state<Ch>(t, std::string("stream<") + cn<Ch>() + ">/external-state");
     }
   }
 }
@@ -578,7 +640,7 @@ void body()
                         "stream/rewind-across-newline", "stream/restore-directly-after-eof-read", "stream/double-restore",
                         "stream/interleavings", "stream/messages-checked", "stream/messages-at-eof",
                         "stream/file-interleavings", "stream/failing/bad-stream-reported", "stream/failing/plain-eof",
-                        "stream/failing/entry-point-runs", "stream/failing/rewind-after-bad", "stream/failing/unseekable-rewind"})
+                        "stream/failing/entry-point-runs", "stream/failing/rewind-after-bad", "stream/failing/unseekable-rewind", "stream/external/eofbit-only", "stream/external/failbit-only"})
     vf::require_bucket(b);
   exhaustive<char>(vf::tier<unsigned>(7, 12));
   exhaustive<wchar_t>(vf::tier<unsigned>(6, 10));
